@@ -17,7 +17,7 @@ use crate::escaping::Escaper;
 
 lazy_static! {
     /// Matches text that ends in what would be parsed as expectation modifier
-    static ref ENDS_LIKE_MODIFIER: Regex = Regex::new(
+    pub(crate) static ref ENDS_LIKE_MODIFIER: Regex = Regex::new(
         r"\s\((?:(?:equal|eq|no-eol|escaped|esc|glob|gl|regex|re)[*+?]?|[*+?])\)$"
     )
     .expect("modifier regex must compile");
